@@ -65,3 +65,26 @@ Theorem C14_credential_identifiers_separate_keys :
     BadS CS \/ BadOprfDerive CS.
 Proof. exact @credential_identifiers_separate_keys. Qed.
 Print Assumptions C14_credential_identifiers_separate_keys.
+
+(* ... and end to end: a record registered under one credential identifier does not open when the server evaluates the
+   login under another one (same setup, same password), unless a collision is exhibited.  [action_free]: the scalar
+   action of the OPRF group is free on valid elements and scalars (proved for the toy suite). *)
+From OKE Require Import WrongCredential.
+Theorem C14_record_only_opens_under_its_credential_identifier :
+  forall E Sc Pk Sk (CS : Suite E Sc Pk Sk), HashLaws (hash CS) -> GroupLaws CS ->
+  (forall a b : Sk, {a = b} + {a <> b}) ->
+  (forall P a b, ve CS P -> vs CS a -> vs CS b -> o_mul (oprf CS) P a = o_mul (oprf CS) P b -> a = b) ->
+  forall tape setup t1 pw creg rq t2 cred rr ids ksf upload ek spk t3 cred' clog ke1 t4 ctx slog ke2 t5 dbg out,
+    ve CS (o_h2g (oprf CS) pw (dst_hash_to_group (oprf CS))) ->
+    server_setup_new CS tape = Ok (setup, t1) ->
+    client_registration_start CS t1 pw = Ok (creg, rq, t2) ->
+    server_registration_start CS setup rq cred = Ok rr ->
+    client_registration_finish CS creg t2 pw rr ids ksf = Ok (upload, ek, spk, t3) ->
+    cred' <> cred ->
+    client_login_start CS t3 pw = Ok (clog, ke1, t4) ->
+    server_login_start CS (private_key_ops (ke CS)) t4 setup (Some (server_registration_finish upload)) ke1 cred' ctx ids
+      = Ok (slog, ke2, t5, dbg) ->
+    client_login_finish CS clog pw ke2 ctx ids ksf = Ok out ->
+    BadS CS \/ BadOprfDerive CS.
+Proof. exact @other_credential_identifier_never_accepted. Qed.
+Print Assumptions C14_record_only_opens_under_its_credential_identifier.
